@@ -44,15 +44,20 @@ META = {
 }
 
 INVARIANTS = ["TypeOK", "Inv_Sync", "Inv_Prefix", "Inv_Exact", "Inv_NoPartial", "Inv_Eager", "Inv_Terminal"]
-WITNESSES = ["Witness_PartialHeader", "Witness_PartialBody", "Witness_Pushed", "Witness_AllDone"]
+WITNESSES = ["Witness_PartialHeader", "Witness_PartialBody", "Witness_Pushed", "Witness_AllDone",
+             "Witness_PushOtherId", "Witness_PushMinId"]
 
 
-def _consts(vers, pos, neg, lo, hi):
-    return {"Vers": set(vers), "PosLens": set(pos), "NegLens": set(neg), "MinFrames": lo, "MaxFrames": hi, "AbsHdr": 9}
+ALL_IDS = (-1, -2, -128, -32768)     # -1 is what Cassandra uses; the protocol reserves every negative id for the server
+
+
+def _consts(vers, pos, neg, lo, hi, ids=(-1,)):
+    return {"Vers": set(vers), "PosLens": set(pos), "NegLens": set(neg), "PushIds": set(-i for i in ids), "MinFrames": lo,
+            "MaxFrames": hi, "AbsHdr": 9}
 
 
 def _frames_of(state):
-    return [{"ver": int(f["ver"]), "neg": bool(f["neg"]), "blen": int(f["blen"])} for f in state["frames"]]
+    return [{"ver": int(f["ver"]), "neg": bool(f["neg"]), "blen": int(f["blen"]), "sid": int(f["sid"])} for f in state["frames"]]
 
 
 def _spec_violation(ctx, res, label):
@@ -73,9 +78,17 @@ def run(ctx):
     from harness.replay.framing import CodeUnderTestFailure
     try:
         _run(ctx)
+    except tlc.MachineryError:
+        if not ctx.violations:
+            raise
+        ctx.note("aborted_after_violations", "a later stage could not complete on the misbehaving driver")
     except CodeUnderTestFailure as exc:
         ctx.violation("the connection cannot be brought up over the read path under test: %s" % exc,
                       replay={"kind": "handshake", "what": str(exc)}, signature="handshake-over-read-path-fails")
+    except Exception as exc:                     # anything else a misbehaving driver makes a later stage trip over
+        if not ctx.violations:
+            raise
+        ctx.note("aborted_after_violations", "%s: %s" % (type(exc).__name__, exc))
 
 
 def _run(ctx):
@@ -97,10 +110,13 @@ def _run(ctx):
 
     # ------------------------------------------------------------------ TLC, exhaustive, with state graphs
     if ctx.quick:
-        models = [("1-2 frames, v1-v4, resp 0/4, push 28", _consts((1, 2, 3, 4), (0, 4), (28,), 1, 2)),
+        models = [("1 frame, v1-v4, resp 0, push 28 on stream ids -1/-2/-128/-32768", _consts((1, 2, 3, 4), (0,), (28,), 1, 1, ALL_IDS)),
+                  ("1-2 frames, v1-v4, resp 0/4, push 28", _consts((1, 2, 3, 4), (0, 4), (28,), 1, 2)),
                   ("3 frames, v2/v3, resp 4, push 28", _consts((2, 3), (4,), (28,), 3, 3))]
     else:
-        models = [("1-2 frames, v1-v4, resp 0/4/8, push 28/30", _consts((1, 2, 3, 4), (0, 4, 8), (28, 30), 1, 2)),
+        models = [("1 frame, v1-v4, resp 0, push 28/30 on stream ids -1/-2/-128/-32768", _consts((1, 2, 3, 4), (0,), (28, 30), 1, 1, ALL_IDS)),
+                  ("2 frames, v2/v3, resp 4, push 28 on stream ids -1/-2/-128/-32768", _consts((2, 3), (4,), (28,), 2, 2, ALL_IDS)),
+                  ("1-2 frames, v1-v4, resp 0/4/8, push 28/30", _consts((1, 2, 3, 4), (0, 4, 8), (28, 30), 1, 2)),
                   ("3 frames, v1/v4, resp 0/4, push 28", _consts((1, 4), (0, 4), (28,), 3, 3)),
                   ("3 frames, v2/v3, resp 0/7, push 30", _consts((2, 3), (0, 7), (30,), 3, 3))]
     for n, (label, consts) in enumerate(models):
@@ -115,7 +131,7 @@ def _run(ctx):
         if not cov.get("Next") or cov["Next"][1] == 0:
             raise tlc.MachineryError("Read never taken in model %s: %s" % (label, cov))
         graphs.append((label, consts, nodes, edges, init))
-    wconsts = _consts((2, 3), (0, 4), (28,), 1, 2)
+    wconsts = _consts((2, 3), (0,), (28,), 1, 2, ALL_IDS)
     wcfg = tlc.write_cfg(os.path.join(ctx.scratch, "witness.cfg"), constants=wconsts, constraints=["WitnessScan"], deadlock=False)
     wres = tlc.check_model("Framing", wcfg, ctx.scratch, timeout=600, workers=1)
     reached = set(v[1] for v in wres.printed("WITNESS") if isinstance(v, tuple) and len(v) == 2)
@@ -147,7 +163,7 @@ def _run(ctx):
                 p = proj[nid] = rf.spec_projection(nodes[nid])
             return p
         for nid, st in nodes.items():
-            key = tuple((f["ver"], f["neg"], f["blen"]) for f in st["frames"])
+            key = tuple((f["ver"], f["neg"], f["blen"], f["sid"]) for f in st["frames"])
             t = table.setdefault(key, {})
             if st["sent"] in t and t[st["sent"]] != P(nid):
                 raise tlc.MachineryError("spec state is not a function of the position for %s" % (key,))
@@ -176,7 +192,7 @@ def _run(ctx):
             replayed += 1
             feeds += len(reads)
             if len(frames) >= 2 and any(1 <= x <= 2 for x in reads):
-                ctx.nontrivial((tuple((f["ver"], f["neg"], f["blen"]) for f in frames), tuple(reads)))
+                ctx.nontrivial((tuple((f["ver"], f["neg"], f["blen"], f["sid"]) for f in frames), tuple(reads)))
             if replayed % 20000 == 1:
                 ctx.sample({"direction": "spec->code", "frames": frames, "reads": reads,
                             "final": {k: v for k, v in expected[-1].items() if k in ("sent", "order", "buflen")}})
@@ -213,7 +229,7 @@ def _run(ctx):
             if not pair or pairs_done >= pair_budget:
                 continue
             pairs_done += 1
-        frames = [{"ver": v, "neg": n, "blen": b} for v, n, b in key]
+        frames = [{"ver": v, "neg": n, "blen": b, "sid": i} for v, n, b, i in key]
         all_split_seqs += 1
         for cuts in itertools.product((0, 1), repeat=L - 1):
             reads = []
@@ -280,7 +296,9 @@ def _run(ctx):
         total = sum((8 if f["ver"] <= 2 else 9) + f["blen"] for f in frames)
         traces.append(rf.record(h, frames, rf.random_chunking(ctx.rng, total)))
     good = len(traces)
-    victim = next(t for t in traces if len(t) >= 5)
+    victim = next((t for t in traces if len(t) >= 5), None)
+    if victim is None:
+        victim = rf.record(h, [{"ver": 4, "neg": False, "blen": 4, "sid": 0}], [3, 3, 3, 2, 2])
     bad1 = copy.deepcopy(victim)
     bad1[3]["post"]["buflen"] += 1
     bad2 = copy.deepcopy(victim)
@@ -318,6 +336,11 @@ def _run(ctx):
     ctx.note("traces_recorded", good)
     ctx.note("traces_accepted", accepted)
     ctx.evaluations = replayed + good
+    # observation, not judged (C09's subject): stream ids given back to the pool must be request ids, never a push's
+    try:
+        ctx.note("observation_negative_ids_in_request_ids", sum(1 for i in h.conn.request_ids if i < 0))
+    except Exception:
+        pass
     ctx.assumptions += [
         "the read handler is atomic with respect to other loop-thread callbacks (one reactor thread)",
         "harness/wire.py encodes frames as the native protocol documents say; response bodies are READY / RESULT / ERROR, "
